@@ -27,7 +27,10 @@ def run(tier, seed):
         "(complete trios 0..beacon, canonical five-digit names)",
         "the certificate itself is taken as valid (chain verification is C03's subject); its signed message is the "
         "hash of the protocol message computed by the real signable builder over the honest database",
-        "an immutable file of the restored directory = a regular file <db>/immutable/<digits>.<chunk|primary|secondary>",
+        "an immutable file of the restored directory = <db>/immutable/<digits>.<chunk|primary|secondary> being a regular "
+        "file, or a regular file reached through a symbolic link (judged by the content read through the name: the "
+        "lenient reading, so that neither refusing links nor following them alarms); a directory or a dangling link "
+        "under such a name is no file (a gap)",
         "'rejected and reported' is checked as: the flow returns an error (the error lists are recorded, not judged)",
     ]
     c.cov["trusted_base"] = ["TLC", "harness listing + SHA-256 of the restored directory", "MKTree (servedRoot)",
@@ -37,9 +40,11 @@ def run(tier, seed):
     # the model follows the status of the listed findings (checks/dbcommon.py)
     k_name = is_known(PROP, "C10-content-not-bound-to-name")
     k_dir = is_known(PROP, "C10-nested-immutable-dir")
+    k_nonreg = is_known(PROP, "C10-directory-counts-as-present") or is_known(PROP, "C10-symlink-not-hashed")
     now = {"PerNameOnSuccess": tla_bool(not k_name), "ListNamesCanonical": tla_bool(not k_name),
-           "FindPrefersDirectChild": tla_bool(not k_dir),
-           "ExcuseMisplaced": tla_bool(k_name), "ExcuseDecoy": tla_bool(k_dir)}
+           "FindPrefersDirectChild": tla_bool(not k_dir), "NonRegularRefused": tla_bool(not k_nonreg),
+           "ExcuseMisplaced": tla_bool(k_name), "ExcuseDecoy": tla_bool(k_dir),
+           "ExcuseNonRegular": tla_bool(k_nonreg)}
     c.cov["model_constants"] = now
     for u in ("forged", "lists", "dirs"):
         c.mc("db", "MC_DbVerify", cfg_with(c, f"MC_DbVerify_{pre}_{u}.cfg", now), name=u, workers=12, timeout=3000,
@@ -48,12 +53,19 @@ def run(tier, seed):
         # N = 2 explores absent / own / other certified content per file; foreign contents with N = 1
         c.mc("db", "MC_DbVerify", cfg_with(c, "MC_DbVerify_q_dirs.cfg", now), name="dirs-N1-all-options", workers=12,
              timeout=3000, heap="12g", coverage=False)
-    if k_name or k_dir:
+    if k_name or k_dir or k_nonreg:
         # the proposed fix (per-name comparison on the success path + only canonical names kept from the served
         # list + direct-child immutable directory) closes the model without any excuse
         for u in ("fixed_forged",) if q else ("fixed_forged", "fixed_lists", "fixed_dirs", "t_fixed_forged"):
             c.mc("db", "MC_DbVerify", f"MC_DbVerify_{u}.cfg", name="proposed-fix-" + u, workers=12,
                  timeout=3000, coverage=False)
+    if k_nonreg:
+        _expect_violation(c, cfg_with(c, "MC_DbVerify_unexcused_nonreg.cfg",
+                                      {k: now[k] for k in ("PerNameOnSuccess", "ListNamesCanonical",
+                                                           "FindPrefersDirectChild")}),
+                          "known-finding-in-model-non-regular", "VerifySound",
+                          "a directory / symbolic link under a certified name is neither missing nor hashed "
+                          "(C10-directory-counts-as-present, C10-symlink-not-hashed)")
     if k_name:
         _expect_violation(c, "MC_DbVerify_unexcused.cfg", "known-finding-in-model", "VerifySound",
                           "membership-only success path (C10-content-not-bound-to-name)")
@@ -79,10 +91,10 @@ def run(tier, seed):
     rej = [x for x in cases if not x["impl"]]
     rnd = random.Random(seed)
     if q:
-        sel = []
+        sel = [x for x in cases if x["dir"]["nonreg"]]      # every case with an entry that is no regular file
         for gname in gens:      # stratified: per universe, per verdict class
-            for pool, k in ((excused, 700), (good, 500), (rej, 900)):
-                sub = [x for x in pool if x["label"] == gname]
+            for pool, k in ((excused, 500), (good, 400), (rej, 600)):
+                sub = [x for x in pool if x["label"] == gname and not x["dir"]["nonreg"]]
                 sel += rnd.sample(sub, min(k, len(sub)))
     else:
         sel = cases
@@ -114,11 +126,16 @@ def run(tier, seed):
             < 3 * (x["hi"] - x["lo"] + 1)),
         "range_kinds": dict(collections.Counter(x["rangeKind"] for x in recs)),
         "decoy": dict(collections.Counter(x["decoy"] for x in recs)),
+        "non_regular_entries": {
+            k: {"runs": sum(1 for x in recs if k in x["entryKinds"]),
+                "accepted": sum(1 for x in acc if k in x["entryKinds"])}
+            for k in ("dir", "link", "dangling")},
         "prediction_mismatches": sum(1 for x in recs if not x["pred_match"]),
     }
     c.cov["stages"]["RUN:cases"]["coverage"] = cov
     if cov["accepted_by_worst"].get("ok", 0) < 300 or cov["rejected_by_worst"].get("foreign", 0) < 100 \
-            or cov["rejected_by_worst"].get("missing", 0) < 30 or cov["digest_list_rejected"] < 100:
+            or cov["rejected_by_worst"].get("missing", 0) < 15 or cov["digest_list_rejected"] < 100 \
+            or min(v["runs"] for v in cov["non_regular_entries"].values()) < 20:
         c.defer(f"vacuity: {cov}")
     c.sample({k: v for k, v in recs[0].items() if k != "pred"})
     c.sample([{k: v for k, v in x.items() if k != "pred"} for x in acc if x["worst"] == "misplaced"][:1])
